@@ -380,11 +380,9 @@ func Run(c Case, h Hooks) Result {
 		// every call whose context has ended must be over while the nodes still misbehave
 		for _, ci := range res.Calls {
 			select {
-			case <-ci.Call.IssuedCh():
+			case <-ci.Call.StartedCh():
 			default:
-				if ci.Call.Returned() {
-					continue
-				}
+				continue // never issued: its thread is stuck in an earlier call, which is reported
 			}
 			if ci.Spec.Ctx == "background" || ci.Spec.Ctx == "" {
 				continue
@@ -422,7 +420,7 @@ func Run(c Case, h Hooks) Result {
 		// every call returns although the handlers are still held
 		for _, ci := range res.Calls {
 			select {
-			case <-ci.Call.IssuedCh():
+			case <-ci.Call.StartedCh():
 			default:
 				if !threadsDone {
 					continue
@@ -507,7 +505,7 @@ func Run(c Case, h Hooks) Result {
 	if !c.HoldAtEnd {
 		for _, ci := range res.Calls {
 			select {
-			case <-ci.Call.IssuedCh():
+			case <-ci.Call.StartedCh():
 			default:
 				if !threadsDone {
 					continue // never issued: its thread is stuck in an earlier call, which is reported
